@@ -458,6 +458,18 @@ def check_blend(ctx, rep):
                 w = expand_locals(ctx, fn, a[2])
                 wtxt = pretty(w)
                 okw = any(wtxt.endswith(k) for k in WEIGHT_PARAMS)
+                pidx = [j for j, p_ in enumerate(fn.params) if w[0] == "var" and p_.get("id") == w[1]]
+                if not okw and pidx:
+                    # a thin wrapper (`blendedPlacementX(float blending)`): the weight is what its callers pass
+                    ws_ = []
+                    for g_ in prog.funcs.values():
+                        for y_ in walk(g_.body):
+                            if y_.get("kind") in ("CallExpr", "CXXMemberCallExpr") and callee_info(y_)["qname"] == fn.qname and \
+                                    len(callee_info(y_)["args"]) > pidx[0]:
+                                ws_.append(pretty(expand_locals(ctx, g_, canon(callee_info(y_)["args"][pidx[0]]))))
+                    if ws_ and all(any(t_.endswith(k) for k in WEIGHT_PARAMS) for t_ in ws_):
+                        okw = True
+                        wtxt = "%s = %s" % (wtxt, " | ".join(sorted(set(t_[-30:] for t_ in ws_))))
                 what = "blendPlacement(%s, %s, %s)" % (names[0], names[1], wtxt[-40:])
                 if m and m2 and m.group(1) == m2.group(1) and okw:
                     rep.holds("QB", x, fn, what)
@@ -508,7 +520,8 @@ def check_export(ctx, rep):
     for m in ms:
         calls = [x for x in walk(m.body) if x.get("kind") == "CallExpr" and callee_info(x)["qname"] == CQ + "GlobalPlacer::exportPlacement"]
         for x in calls:
-            a = [expand_locals(ctx, m, canon(y)) for y in callee_info(x)["args"]]
+            from .common import inline_getters
+            a = [inline_getters(ctx, expand_locals(ctx, m, canon(y)), with_params=True) for y in callee_info(x)["args"]]
             tx, ty = pretty(a[1]), pretty(a[2])
             if "xPlacementLB_" in tx and "xPlacementUB_" in tx and "yPlacementLB_" in ty and "yPlacementUB_" in ty and "exportBlending" in tx and "exportBlending" in ty:
                 rep.holds("XP", x, m, "returned placement = blend(LB, UB, exportBlending) per axis")
@@ -531,6 +544,27 @@ def check_spread(ctx, rep):
           and canon(children(x)[0])[1] == rv]
     if not ws or not mn or not mx:
         rep.unknown("SB", f.decl, f, "spread formula", "coordinate store not found")
+    # every return hands back the spread coordinates: returning the (unclamped) targets themselves leaves a cell wherever its
+    # target is, possibly outside the bin and outside the rows; only an empty input may be returned as it is
+    pids_ = {q.get("id"): q.get("name") for q in f.params}
+    for y in walk(f.body):
+        if y.get("kind") != "ReturnStmt" or not children(y):
+            continue
+        rc = canon(children(y)[0])
+        if rc[0] == "var" and rc[1] in pids_:
+            from .common import nonempty_fact
+            emp = False
+            for gc, val, _a, _b in (ctx.guards(f, y) or []):
+                if gc == ("call", "empty", rc) and val is True:
+                    emp = True
+                if gc[0] == "bin" and gc[1] == "==" and val is True and {gc[2], gc[3]} == {("call", "size", rc), ("lit", "0")}:
+                    emp = True
+            if emp:
+                rep.holds("SB", y, f, "the empty input is returned as it is")
+            else:
+                rep.violation("SB", y, f, "spreadCells returns its parameter %s unchanged on some path" % pids_[rc[1]],
+                              "the cells of that bin keep their raw targets instead of a position inside the bin: a target outside the rows is "
+                              "exposed as it is (a bin holding a single cell is the common case)", key="spreadCells|targets returned unspread")
     for x in ws:
         e = canon(children(x)[1])
         lo_id, hi_id = mn[0].get("id"), mx[0].get("id")
